@@ -28,19 +28,31 @@ structure MonSess where
 
 abbrev StMon := List (String × MonSess)
 
+/-- another open file-store session of this case whose files have the same names (`filePrefixKey` is not injective: a
+    SenderSubID and a SenderLocationID with the same value, likewise on the target side).  The two sessions then are ONE store
+    on disk: the known finding `sessions_share_files`; nothing else is judged about either of them. -/
+def sharesFiles (w : StMon) (kind sid : String) : Bool :=
+  (kind == "file" || kind == "filens") &&
+  w.any fun (s', m') => s' != sid && (m'.kind == "file" || m'.kind == "filens") && filePrefixKey s' == filePrefixKey sid
+
+def sharedVerdict : String := "bad sessions_share_files{cause=subid-locationid-ambiguity}"
+
 def storeMonStep (w : StMon) (ws : List String) : StMon × String :=
   let (opw, obsw) := splitObs ws
   match parseStoreObs obsw with
   | none => (w, if obsw == ["panic"] then "bad panic" else "bad-op")
   | some (got, _) =>
     match opw with
-    | ["open", kind, sid] => (alSet w sid { kind := kind }, verdict (monOpen got))
+    | ["open", kind, sid] =>
+      if sharesFiles w kind sid then (alSet w sid { kind := kind }, sharedVerdict)
+      else (alSet w sid { kind := kind }, verdict (monOpen got))
     | _ => match parseStoreOp opw with
       | none => (w, "bad-op")
       | some (sid, o) =>
         match w.lookup sid with
         | none => (w, "bad-op")
         | some ms =>
+          if sharesFiles w ms.kind sid then (w, sharedVerdict) else
           if o = .reopen ∧ ms.kind = "mem" then
             -- a memory store does not persist: a new one is a fresh store
             (alSet w sid { kind := ms.kind, spec := { epoch := ms.spec.epoch + 1 } }, verdict (monOpen got))
